@@ -313,7 +313,11 @@ inline void analyse(const Trace& t, Analysis& A) {
 			if (e.kind == EV_ACT && e.method == ACT_REQUEST) { S.out = mkReq(e.state, e.a, e.c); S.outKnown = true; S.leftover = false; }
 		}
 		// after processing: what is left outstanding?
-		if ((w.processing || w.activation) && w.complete && !settled) settle(S, w, f);
+		if ((w.processing || w.activation) && w.complete && !settled) {
+			// no guard round ran at all: whatever is outstanding now is what processing started (and ended) with
+			if (w.processing && w.rounds.empty()) { w.outKnownAtStart = S.outKnown; w.outAtStart = S.outKnown ? S.out : TrV{}; w.leftoverFromLimit = S.leftover; }
+			settle(S, w, f);
+		}
 		// deactivation discards the outstanding request (its exit callbacks still see it)
 		if ((w.type == WT_OP && (w.code == OP_EXIT || w.code == OP_RECONSTRUCT || w.code == OP_LOAD)) || w.type == WT_TEARDOWN) { S.out = TrV{}; S.outKnown = true; S.leftover = false; }
 		if (w.aborted) S.dead = true;
